@@ -129,6 +129,10 @@ def to_sessions(recs, rng, targets=("engine", "pool"), chain=1, sample=None, btp
                             c["via"] = "emSelected"
                 sid += 1
                 decl = [{"name": ru["name"], "sal": ru["sal"], "tpl": tpls[ru["name"]], "fk": fks[ru["name"]]} for ru in rules]
+                if not any(c["method"] == "ExecuteDAGModel" for c in calls):
+                    for d in decl:      # never where one rule may run twice at once (its counter would be the caller's data race)
+                        if trng.random() < 0.25:
+                            d["rk"] = "loop"
                 # parallel models are steered by gates (maximal overlap) - except one session in five, which runs at its natural
                 # speed (a rule that fails at once is then over before its siblings have started)
                 gated = any(c["method"] not in SEQ_ONLY for c in calls) and rng.random() < 0.8
